@@ -10,7 +10,7 @@ git -C /repo worktree add -q --detach "$wt" HEAD || exit 2
 cleanup() { git -C /repo worktree remove --force "$wt"; }
 # untracked files in the agent worktree outside _seed = demonstration files in place
 demos=$(git -C "$src" status --porcelain | grep '^??' | awk '{print $2}' | grep -v '^_seed')
-demo_cmd=$(python3 -c "import json,re;c=json.load(open('$src/_seed/meta.json'))['demo_cmd'];c=re.sub(r'^cp \S+ \S+ && ','',c);print(c)" | sed "s#$src#$wt#g")
+demo_cmd=$(python3 -c "import json,re;c=json.load(open('$src/_seed/meta.json'))['demo_cmd'];c=re.sub(r'cp \S+ \S+ && ','',c);print(c)" | sed "s#$src#$wt#g")
 echo "demo files: $demos"; echo "demo cmd: $demo_cmd"
 for d in $demos; do mkdir -p "$wt/$(dirname $d)"; cp -r "$src/$d" "$wt/$d"; done
 echo "--- demo WITHOUT patch (expect pass)"
